@@ -2,11 +2,11 @@
    chain as a parameter, and of plugins.LoadPlugins.  Mirrors the code statement by statement:
    parse result, opcode filter, NewReplyFromRequest, the type switch, the dispatch loop, the nil
    test, the peer cascade, the control-message switch, the layer-2 branch. *)
-From Verif Require Import Base Net Msg4.
+From Verif Require Import Base Net Msg4 Chain.
 Open Scope N_scope.
 
 (* a handler: request, response so far (None = nil) -> response, stop *)
-Definition handler4 := msg4 -> option msg4 -> (option msg4 * bool).
+Definition handler4 := handler msg4 msg4.
 
 Definition zero4 : bytes := [0;0;0;0].
 Definition bcast4 : bytes := [255;255;255;255].
@@ -26,16 +26,8 @@ Definition reply_stub (req : msg4) : msg4 :=
      m_chaddr := m_chaddr req; m_sname := []; m_file := [];
      m_opts := copy_opt 61 (m_opts req) (copy_opt 82 (m_opts req) []) |}.
 
-(* the dispatch loop; the log records, per invocation, the handler's index and the response it was handed *)
-Fixpoint run_chain4 (hs : list handler4) (idx : nat) (req : msg4) (resp : option msg4)
-  : option msg4 * list (nat * option msg4) :=
-  match hs with
-  | [] => (resp, [])
-  | h :: hs' =>
-      let '(r, stop) := h req resp in
-      if stop then (r, [(idx, resp)])
-      else let '(r', log) := run_chain4 hs' (S idx) req r in (r', (idx, resp) :: log)
-  end.
+(* the dispatch loop is model/Chain.v, instantiated at DHCPv4 messages *)
+Notation run_chain4 := (@run_chain msg4 msg4).
 
 (* net.IP.IsLinkLocalUnicast *)
 Definition is_link_local (ip : bytes) : bool :=
